@@ -77,7 +77,8 @@ pub fn interpret(case: &Case, run: Option<&mut Run>) -> Result<(), String> {
         }
     };
     let mut used = case.offset;
-    let got = match case.kind {
+    // `read` never panics: out of range is `None` (in the safe build a bounds-check panic is exactly what the property excludes)
+    let got = std::panic::catch_unwind(std::panic::AssertUnwindSafe(|| match case.kind {
         0 => {
             let s: Box<str> = String::from_utf8(bytes.clone()).unwrap().into_boxed_str();
             { used = off(s.as_ptr()); reads::<str>(&s, used, len) }
@@ -102,6 +103,13 @@ pub fn interpret(case: &Case, run: Option<&mut Run>) -> Result<(), String> {
             let b: Box<[u8]> = bytes.clone().into_boxed_slice();
             let r: &[u8] = &b;
             { used = off(r.as_ptr()); reads::<&[u8]>(&r, used, len) }
+        }
+    }));
+    let got = match got {
+        Ok(g) => g,
+        Err(e) => {
+            let msg = e.downcast_ref::<String>().cloned().or_else(|| e.downcast_ref::<&str>().map(|s| s.to_string())).unwrap_or_default();
+            return Err(format!("Source::read panicked at offset {} on a {len}-byte source (kind {}): {msg}", used, case.kind));
         }
     };
     for (n, some, g) in &got {
